@@ -52,7 +52,7 @@ fn extra_repo_sets() -> Vec<InputSet> {
 fn build_work(tier: &str, seed: u64) -> Work {
     let mut sets = input_sets();
     sets.extend(extra_repo_sets());
-    let n_gen = if tier == "thorough" { 600 } else { 40 };
+    let n_gen = if tier == "thorough" { 1500 } else { 40 };
     for g in 0..n_gen {
         let mut ch = Chooser::explore(Rng::derive(seed, "det-gen", g));
         // every second generated set uses the wild profile (namespace abbreviation collisions, imports without
@@ -378,11 +378,11 @@ fn process_tier(w: &Work, tier: &str, seed: u64) -> (u64, Vec<ProcFinding>, Vec<
     if !cli::zeep_bin().is_file() {
         return (0, vec![], vec![]);
     }
-    let n_env = if tier == "thorough" { 64 } else { 16 };
+    let n_env = if tier == "thorough" { 96 } else { 16 };
     let names = ["tempconverter", "chain", "orders", "number_services", "hello", "unresolved-reference", "aic-agent", "malformed-sibling"];
     let mut idx: Vec<usize> = names.iter().filter_map(|n| w.sets.iter().position(|s| &s.name == n)).collect();
     if tier == "thorough" {
-        idx.extend(w.sets.iter().enumerate().filter(|(_, s)| s.name.starts_with("generated-")).map(|(i, _)| i).take(42));
+        idx.extend(w.sets.iter().enumerate().filter(|(_, s)| s.name.starts_with("generated-")).map(|(i, _)| i).take(72));
     } else {
         idx.extend(w.sets.iter().enumerate().filter(|(_, s)| s.name.starts_with("generated-")).map(|(i, _)| i).take(4));
     }
@@ -548,7 +548,7 @@ fn main() {
 
     // canonical outcome per input
     let canon: Vec<Out> = (0..w.sets.len()).map(|si| run_env(&w, si, &canonical_env(w.sets[si].files.len())).0.remove(0)).collect();
-    let n_env = if tier == "thorough" { 256 } else { 64 };
+    let n_env = if tier == "thorough" { 384 } else { 64 };
     let mut items = Vec::new();
     for si in 0..w.sets.len() {
         let big = w.sets[si].files.iter().map(|f| f.1.len()).sum::<usize>() > 300_000;
